@@ -426,7 +426,7 @@ impl Prop for Direct {
         120
     }
     fn cases(&self, tier: Tier) -> u64 {
-        tier.pick(300_000, 6_000_000)
+        tier.pick(300_000, 30_000_000)
     }
     fn generate(&self, g: &mut Gen) -> DirectCase {
         let question = gen_question(g);
@@ -503,7 +503,7 @@ impl Prop for EndToEnd {
         500
     }
     fn cases(&self, tier: Tier) -> u64 {
-        tier.pick(60_000, 2_000_000)
+        tier.pick(60_000, 10_000_000)
     }
     fn generate(&self, g: &mut Gen) -> E2eCase {
         let question = gen_question(g);
